@@ -53,6 +53,17 @@
 //! then unwinds: the leading request panics, so its waiters must fail with `leader_cancelled` and the key must be free
 //! at once. Inert for a request that coalesces onto another call (it makes no inner call).
 //!
+//! `arrive … rdy=<script>`: what the wrapped service of THE HANDLE THIS CALLER IS ABOUT TO CALL answers to that handle's
+//! successive `poll_ready` calls ('p' pending, 'r' ready, 'e' error — `Err(IErr{9,0})`, a connection of that handle's
+//! own that failed); the caller polls until an answer other than pending or until the script ends (as in
+//! `mw_bulkhead.rs`). Which handle that is follows `via=`: the per-request clone (`clone`, `readyclone` — the owner's
+//! handle is readied without a script first), the owner's handle itself (`template`, `swap`). A handle whose readiness
+//! failed is discarded (Tower's contract): the per-request clone is dropped; the owner's handle is replaced by a spare
+//! clone taken beforehand. The caller gets `result c err:inner9:0` (`CoalesceError::Service`) or `result c notready`,
+//! `Service::call` is not reached (no `#arrive` line). Every OTHER handle — the owner's, the clones earlier requests
+//! were made through — and every call in flight must be unaffected: the in-flight table is shared by the clones, a
+//! handle's copy of the wrapped service is not. Ignored on an arrival that only hands out a parked future (`ondrop`).
+//!
 //! `arrive … eclone=1`: the caller clones what it received (`Result<Resp, CoalesceError<IErr>>` — `CoalesceError::clone`,
 //! what an outer layer that shares results, e.g. a second coalescing layer, does with it) and looks at the clone only.
 use crate::world::*;
@@ -213,13 +224,13 @@ impl Drop for Hooked {
                 let ix = self.ix;
                 s.spawn(move || {
                     let _g = rt.enter();
-                    request(svc, ix, c2, req)
+                    request(svc, ix, c2, req, &Rdy::default())
                 })
                 .join()
                 .unwrap_or(None)
             })
         } else {
-            request(svc, self.ix, c2, req)
+            request(svc, self.ix, c2, req, &Rdy::default())
         };
         if let Some(x) = got {
             self.shared.lock().unwrap_or_else(|e| e.into_inner()).parked.insert(c2, x);
@@ -229,24 +240,68 @@ impl Drop for Hooked {
 
 /// One request the way a caller makes it: `poll_ready`, `call`; the handle (a clone) is dropped on return,
 /// as `Oneshot` does. `None` when no future came into being (the adapter has logged why).
-fn request(mut svc: Svc, ix: usize, c: usize, req: Req) -> Option<(SvcFut, bool)> {
-    request_on(&mut svc, ix, c, req, true)
+fn request(mut svc: Svc, ix: usize, c: usize, req: Req, rdy: &Rdy) -> Option<(SvcFut, bool)> {
+    request_on(&mut svc, ix, c, req, Some(rdy))
 }
 
-fn readied(svc: &mut Svc, c: usize) -> bool {
-    match poll_ready_once(svc) {
-        Poll::Ready(Ok(())) => true,
-        _ => {
+/// `rdy=<script>` of one arrival: the answers of the wrapped service to the readiness polls of the handle about to be
+/// called, installed in the back-end's shared state for the duration of those polls only
+#[derive(Clone, Default)]
+pub struct Rdy {
+    script: String,
+    inner: Option<Arc<Mutex<InnerShared>>>,
+}
+
+/// Poll `svc` ready the way a caller does (`ready().await`): until the answer is not `Pending`, at most once per
+/// scripted answer (no script: one poll, the wrapped service is ready). `false`: the handle is not to be called — the
+/// caller has been answered (`result c <readiness error>` / `result c notready`).
+fn readied(svc: &mut Svc, c: usize, rdy: &Rdy) -> bool {
+    readied_how(svc, c, rdy) == Rd::Ready
+}
+
+#[derive(PartialEq, Eq)]
+enum Rd {
+    Ready,
+    /// `poll_ready` returned an error: the handle must be discarded
+    Failed,
+    NotReady,
+}
+
+fn readied_how(svc: &mut Svc, c: usize, rdy: &Rdy) -> Rd {
+    let scripted = !rdy.script.is_empty() && rdy.inner.is_some();
+    if scripted {
+        rdy.inner.as_ref().unwrap().lock().unwrap_or_else(|e| e.into_inner()).ready_script = rdy.script.chars().collect();
+    }
+    let mut res = Poll::Pending;
+    for _ in 0..(if scripted { rdy.script.len() } else { 1 }) {
+        res = poll_ready_once(svc);
+        if res.is_ready() {
+            break;
+        }
+    }
+    if scripted {
+        rdy.inner.as_ref().unwrap().lock().unwrap_or_else(|e| e.into_inner()).ready_script.clear();
+    }
+    match res {
+        Poll::Ready(Ok(())) => Rd::Ready,
+        Poll::Ready(Err(e)) => {
+            log(format!("result {} {}", c, render(Err(e))));
+            Rd::Failed
+        }
+        Poll::Pending => {
             log(format!("result {} notready", c));
-            false
+            Rd::NotReady
         }
     }
 }
 
-/// the same through a handle the caller goes on owning (`ready`: it has not been polled ready yet)
-fn request_on(svc: &mut Svc, ix: usize, c: usize, req: Req, ready: bool) -> Option<(SvcFut, bool)> {
-    if ready && !readied(svc, c) {
-        return None;
+/// the same through a handle the caller goes on owning (`ready`: it has not been polled ready yet — do it, with these
+/// scripted answers)
+fn request_on(svc: &mut Svc, ix: usize, c: usize, req: Req, ready: Option<&Rdy>) -> Option<(SvcFut, bool)> {
+    if let Some(rdy) = ready {
+        if !readied(svc, c, rdy) {
+            return None;
+        }
     }
     if ix == 0 {
         log_raw(format!("#arrive {} {}", c, req.key));
@@ -338,34 +393,40 @@ impl Adapter {
     /// `readyclone`: ready the owner's handle, clone it, ready the clone, call the clone (the owner's handle stays
     ///   ready-but-uncalled), drop the clone.
     /// The handle is taken out of `Shared` for the duration (nothing else runs meanwhile) and put back.
-    fn request_via(&mut self, ix: usize, via: &str, c: usize, req: Req) -> Option<(SvcFut, bool)> {
+    /// `rdy` scripts the readiness of the handle that is going to be called (see the top of the file); a handle of the
+    /// owner's whose readiness FAILED is discarded and replaced by a spare clone taken before the poll.
+    fn request_via(&mut self, ix: usize, via: &str, c: usize, req: Req, rdy: &Rdy) -> Option<(SvcFut, bool)> {
         let mut own = self.sh().svcs.remove(&ix)?;
+        let plain = Rdy::default();
+        // only when the owner's own handle is polled with a script that contains an error
+        let spare = if matches!(via, "template" | "swap") && rdy.script.contains('e') { Some(own.clone()) } else { None };
         let (got, back) = match via {
-            "template" => {
-                let got = request_on(&mut own, ix, c, req, true);
-                (got, own)
-            }
-            "swap" => {
-                if !readied(&mut own, c) {
-                    (None, own)
-                } else {
+            "template" => match readied_how(&mut own, c, rdy) {
+                Rd::Ready => (request_on(&mut own, ix, c, req, None), own),
+                Rd::Failed => (None, spare.unwrap_or(own)),
+                Rd::NotReady => (None, own),
+            },
+            "swap" => match readied_how(&mut own, c, rdy) {
+                Rd::Ready => {
                     let fresh = own.clone();
-                    let got = request_on(&mut own, ix, c, req, false);
+                    let got = request_on(&mut own, ix, c, req, None);
                     drop(own);
                     (got, fresh)
                 }
-            }
+                Rd::Failed => (None, spare.unwrap_or(own)),
+                Rd::NotReady => (None, own),
+            },
             "readyclone" => {
-                if !readied(&mut own, c) {
+                if !readied(&mut own, c, &plain) {
                     (None, own)
                 } else {
                     let svc = own.clone();
-                    (request(svc, ix, c, req), own)
+                    (request(svc, ix, c, req, rdy), own)
                 }
             }
             _ => {
                 let svc = own.clone();
-                (request(svc, ix, c, req), own)
+                (request(svc, ix, c, req, rdy), own)
             }
         };
         self.sh().svcs.insert(ix, back);
@@ -448,7 +509,8 @@ impl Mw for Adapter {
                 log("noop".into());
                 return None;
             }
-            self.request_via(ix, kv.str("via", "clone").as_str(), c, req)
+            let rdy = Rdy { script: kv.str("rdy", ""), inner: self.backend.as_ref().map(|b| b.shared.clone()) };
+            self.request_via(ix, kv.str("via", "clone").as_str(), c, req, &rdy)
         };
         let (fut, led) = got?;
         let fut = Traced { c, on: !led, fut: Box::pin(fut) };
